@@ -9,7 +9,10 @@
 (*   PhaseStep   layer-2 phase = pn / rate, pn' = (pn + hz) mod rate       *)
 (*   SawRel, SquareRel, AmpRange                                           *)
 (*   HzPulls     an Hz-driven oscillator has pulled one frequency frame    *)
-(*               per output; a ConstHz one none                            *)
+(*               per output; a ConstHz one none -- also when the frequency *)
+(*               signal reports is_exhausted() (variable exh: it does so   *)
+(*               once exh frames have been pulled, and keeps yielding its  *)
+(*               frequencies, as from_iter(dev).offset_amp(base) does)     *)
 (*   SineSpecial at phases k/24 the pinned sine class is in range and      *)
 (*               antisymmetric under a half-period shift                   *)
 (* and, as a second small machine (part = "noise"), noise determinism:     *)
@@ -35,8 +38,9 @@ VARIABLES part,       \* "osc" | "noise"
           n,          \* frames produced
           pulls,      \* frequency frames pulled from the hz signal
           out,        \* last frame: [pn, ph, saw, square] (phase yielded BEFORE stepping)
-          nz          \* noise machine: [nf, seed0, inst, log, ok]
-vars == << part, mode, r, hz0, pn, ph, n, pulls, out, nz >>
+          nz,         \* noise machine: [nf, seed0, inst, log, ok]
+          exh         \* the frequency signal reports exhaustion once `exh` frames were pulled (-1: never)
+vars == << part, mode, r, hz0, pn, ph, n, pulls, out, nz, exh >>
 
 Rate == Pow2Small(r)
 FZero == FZeroF(0)
@@ -45,9 +49,16 @@ NoOut == [pn |-> 0, ph |-> FZero, saw |-> FOne, square |-> FOne]
 NoNoise == [nf |-> << >>, seed0 |-> 0, inst |-> << >>, log |-> << >>, ok |-> TRUE]
 
 ---------------------------------------------------------------------------
+ExhSet == {-1, 0, 2}
 InitOsc == /\ part = "osc" /\ mode \in {"const", "hz"} /\ r \in 0..MaxLog
            /\ hz0 \in (IF mode = "const" THEN 0..MaxHz ELSE {0})
            /\ pn = 0 /\ ph = FZero /\ n = 0 /\ pulls = 0 /\ out = NoOut /\ nz = NoNoise
+           /\ exh \in (IF mode = "hz" THEN ExhSet ELSE {-1})
+
+\* the instrumented frequency signal: is_exhausted() is a report, not an end -- the signal yields the
+\* frequency chosen for the frame whatever it reports.  The property (one frequency frame per output,
+\* phase' = phase + hz/rate) does not mention exhaustion, so Frame does not read SrcExhausted.
+SrcExhausted == exh >= 0 /\ pulls >= exh
 
 \* one output frame: yield the current phase, then step (Phase::next_phase)
 Frame(hz) ==
@@ -57,7 +68,7 @@ Frame(hz) ==
      /\ pn' = PNext(pn, hz, Rate)
   /\ n' = n + 1
   /\ pulls' = IF mode = "hz" THEN pulls + 1 ELSE pulls
-  /\ UNCHANGED << part, mode, r, hz0, nz >>
+  /\ UNCHANGED << part, mode, r, hz0, nz, exh >>
 StepOsc == part = "osc" /\ IF mode = "const" THEN Frame(hz0) ELSE \E hz \in 0..MaxHz : Frame(hz)
 
 ---------------------------------------------------------------------------
@@ -66,7 +77,7 @@ StepOsc == part = "osc" /\ IF mode = "const" THEN Frame(hz0) ELSE \E hz \in 0..M
 NoiseFns == [0..(NoiseM - 1) -> {0, 1}]
 N(nf, seed, i) == nf[(seed + i) % NoiseM]
 InitNoise == /\ part = "noise" /\ mode = "const" /\ r = 0 /\ hz0 = 0 /\ pn = 0 /\ ph = FZero
-             /\ n = 0 /\ pulls = 0 /\ out = NoOut
+             /\ n = 0 /\ pulls = 0 /\ out = NoOut /\ exh = -1
              /\ \E nf \in NoiseFns, s0 \in 0..(NoiseM - 1) :
                   nz = [nf |-> nf, seed0 |-> s0, inst |-> << [seed |-> s0, idx |-> 0] >>, log |-> << >>, ok |-> TRUE]
 NoiseNext(i) ==
@@ -83,12 +94,14 @@ NoiseRestart == /\ Len(nz.inst) = 2
                 /\ nz' = [nz EXCEPT !.inst = Append(nz.inst, [seed |-> nz.seed0, idx |-> 0])]
 StepNoise == /\ part = "noise"
              /\ (\E i \in 1..3 : NoiseNext(i)) \/ NoiseClone \/ NoiseRestart
-             /\ UNCHANGED << part, mode, r, hz0, pn, ph, n, pulls, out >>
+             /\ UNCHANGED << part, mode, r, hz0, pn, ph, n, pulls, out, exh >>
 
 Init == InitOsc \/ InitNoise
 Next == StepOsc \/ StepNoise
 Spec == Init /\ [][Next]_vars
-\* histories of ANY length: the frame counter only matters through pulls - n
+\* histories of ANY length: the frame counter only matters through pulls - n.  `exh` is not part of the
+\* view: no action and no invariant reads it (that IS the clause), so states differing only in exh and
+\* in whether the signal already reports exhaustion are one state.
 View == << part, mode, r, hz0, pn, ph, IF mode = "hz" THEN pulls - n ELSE pulls, n > 0, out, nz >>
 
 ---------------------------------------------------------------------------
@@ -102,7 +115,7 @@ SawRel    == n > 0 => DEq(Dec(F64, out.saw), Saw(OutPh)) /\ DEq(Dec(F64, out.ph)
 SquareRel == n > 0 => DEq(Dec(F64, out.square), Square(OutPh))
                       /\ DEq(Dec(F64, out.square), DOne) = (2 * out.pn < Rate)
 AmpRange  == DInUnit(Dec(F64, out.saw)) /\ DInUnit(Dec(F64, out.square))
-HzPulls   == pulls = IF mode = "hz" THEN n ELSE 0
+HzPulls   == pulls = IF mode = "hz" THEN n ELSE 0             \* whatever SrcExhausted says
 \* sine: at a special phase the pinned class is in range and flips sign half a period later
 SineSpecial ==
   (24 * pn) % Rate = 0 =>
@@ -119,8 +132,9 @@ ASSUME SineTableOK
 ---------------------------------------------------------------------------
 (* stimuli: one execution = << reset, next, next, ... >>                   *)
 HzOp(h) == [ev |-> "next", a |-> [hzi |-> h]]
-Reset(m, rr) == [ev |-> "reset", comp |-> "osc", cfg |-> [mode |-> m, ratei |-> Pow2Small(rr)]]
-Exec(m, rr, f(_)) == << Reset(m, rr) >> \o [i \in 1..Frames |-> HzOp(f(i))]
+Reset(m, rr, x) == [ev |-> "reset", comp |-> "osc", cfg |-> [mode |-> m, ratei |-> Pow2Small(rr), exh |-> x]]
+ExecX(m, rr, f(_), x) == << Reset(m, rr, x) >> \o [i \in 1..Frames |-> HzOp(f(i))]
+Exec(m, rr, f(_)) == ExecX(m, rr, f, -1)
 
 Bd(rr) == IF Thorough THEN {0, 1, Pow2Small(rr), 2 * Pow2Small(rr) + 1, MaxHz}
           ELSE {0, Pow2Small(rr), 2 * Pow2Small(rr) + 1}
@@ -132,7 +146,13 @@ RampStim == { Exec("hz", rr, LAMBDA i : (a + b * (i - 1)) % (MaxHz + 1)) :
               rr \in 0..MaxLog, a \in {0, 7, MaxHz}, b \in {1, 3, 17} }
 \* every 3-cycle over the boundary frequencies of the rate
 CycStim == UNION { { Exec("hz", rr, LAMBDA i : s[((i - 1) % 3) + 1]) : s \in [1..3 -> Bd(rr)] } : rr \in 0..MaxLog }
-Stimuli == ConstStim \cup HzConstStim \cup RampStim \cup CycStim
+\* frequency signals that report exhaustion after x pulls (at once, after two, half-way) and keep yielding
+\* non-zero frequencies: a constant 1, a constant above twice the rate, a 3-cycle through 0
+ExhHz(p, rr, i) == CASE p = 1 -> 1 [] p = 2 -> 2 * Pow2Small(rr) + 1
+                     [] OTHER -> << 0, Pow2Small(rr), 5 >>[((i - 1) % 3) + 1]
+ExhStim == { ExecX("hz", rr, LAMBDA i : ExhHz(p, rr, i), x) :
+             rr \in 0..MaxLog, p \in 1..3, x \in {0, 2, Frames \div 2} }
+Stimuli == ConstStim \cup HzConstStim \cup RampStim \cup CycStim \cup ExhStim
 
 WriteStimuli ==
   IF "STIM_OUT" \in DOMAIN IOEnv
